@@ -10,9 +10,9 @@
    (every rule when L is empty). *)
 From Coq Require Import List Bool Arith.
 From Coq Require Import Strings.String Strings.Byte.
-From Falco Require Import Base.Bytes Model.Ignore Model.IgnoreSpec
+From Falco Require Import Base.Bytes Model.Ignore Model.IgnoreSpec Model.IgnoreLegacy
   Proofs.IgnoreBasics Proofs.IgnoreSim Proofs.IgnoreExact Proofs.IgnoreNT Proofs.IgnoreRange Proofs.IgnoreRange2
-  Proofs.IgnoreParse.
+  Proofs.IgnoreParse Proofs.IgnoreExamples.
 Import ListNotations.
 Open Scope list_scope.
 
@@ -104,45 +104,9 @@ Theorem C12_parse_render :
   forall mk k L, forallb plain_rule L = true -> parse_ignore_comment (render mk k L) = Some (k, L).
 Proof. exact parse_render. Qed.
 
-(* ---------------------------------------------------------------- witnesses *)
-Definition bs (s : string) : list byte := list_byte_of_string s.
-Definition mt : meta := {| leading := []; trailing := []; infix := [] |}.
-Definition simple (r : string) : node := Node WStmt mt false [bs r] [] [] [].
-Definition blk (ks : list node) : node := Node WBlock mt false [] [] [] ks.
-(* sub vcl_recv { s0; if (c) { s1; s2; } else { s3; } s4; }   sub vcl_fetch { s5; } *)
-Definition ex_prog : list node :=
-  [ Node WStmt mt true [bs "macro"] [] [] [blk [ simple "r0";
-      Node WStmt mt false [bs "cond"] [] [] [ blk [simple "r1"; simple "r2"];
-                                              Node WStmt mt false [] [] [] [blk [simple "r3"]] ];
-      simple "r4" ]];
-    Node WStmt mt true [] [] [] [blk [simple "r5"]] ].
-
-(* next-line before the if: its condition and both branches go, nothing else *)
-Example C12_ex_next_line :
-  map snd (report (upd_prog [0; 0; 1] (add_leading 0 (bs "# falco-ignore-next-line")) ex_prog))
-  = map bs ["macro"; "r0"; "r4"; "r5"]%string
-  /\ map snd (report ex_prog) = map bs ["macro"; "r0"; "cond"; "r1"; "r2"; "r3"; "r4"; "r5"]%string.
-Proof. vm_compute. split; reflexivity. Qed.
-
-(* a nested next-line with a rule list inside the covered if does not cancel the outer one *)
-Example C12_ex_nested :
-  map snd (report (upd_prog [0; 0; 1; 0; 0] (add_leading 0 (bs "// falco-ignore-next-line r1"))
-                    (upd_prog [0; 0; 1] (add_leading 0 (bs "/* falco-ignore-next-line */")) ex_prog)))
-  = map bs ["macro"; "r0"; "r4"; "r5"]%string.
-Proof. vm_compute. reflexivity. Qed.
-
-(* range: start before s1, end before the closing brace of the consequence *)
-Example C12_ex_block_end :
-  map snd (report (upd_prog [0; 0; 1; 0]
-                     (fun n => add_infix 0 (bs "# falco-ignore-end r1, r2") (set_kids [add_leading 0 (bs "# falco-ignore-start r1, r2") (simple "r1"); simple "r2"] n))
-                     ex_prog))
-  = map bs ["macro"; "r0"; "cond"; "r3"; "r4"; "r5"]%string
-  /\ forallb range_free ex_prog = true.
-Proof. vm_compute. split; reflexivity. Qed.
-
 (* The "no other start / end directive" hypothesis of the range theorems is needed: by design
    (linter tests pin it) falco-ignore-end without rules clears the whole range set, so a pair
-   placed inside an open range ends it. *)
+   placed inside an open range ends it.  Witness in Proofs/IgnoreExamples.v. *)
 Theorem C12_range_overlap_refuted :
   exists L c1 c2 before ki mid kj after k1 k2,
     parse_ignore_comment c1 = Some (Start, L) /\ parse_ignore_comment c2 = Some (End, L) /\
@@ -150,11 +114,43 @@ Theorem C12_range_overlap_refuted :
     free_list (firstn k2 (leading (node_meta kj))) = true /\
     report (before ++ add_leading k1 c1 ki :: mid ++ add_leading k2 c2 kj :: after)
     <> filter (region_filter [] (List.length before) (S (List.length mid)) L) (report (before ++ ki :: mid ++ kj :: after)).
-Proof.
-  exists [], (bs "# falco-ignore-start"), (bs "# falco-ignore-end"),
-    [add_leading 0 (bs "# falco-ignore-start") (simple "a")], (simple "b"), [], (simple "c"), [simple "d"], 0, 0.
-  vm_compute. repeat split; discriminate.
-Qed.
+Proof. exact range_overlap_refuted. Qed.
+
+(* The code before the repairs (Model/IgnoreLegacy.v = linter/ignore.go and its call sites at
+   repository commit 06bf344, validated against that linter): for each repaired defect, what the
+   unrepaired code reported on a concrete program (p_... in Proofs/IgnoreExamples.v) next to what the
+   repaired code reports - which the theorems above show to be what the comments cover.
+   Non-vacuity witnesses of the theorems above: ex_next_line, ex_nested, ex_block_end, ex_this_line,
+   ex_range_top, ex_range_siblings in Proofs/IgnoreExamples.v. *)
+Theorem C12_unrepaired_nested_next_line :
+  map snd (report_vcl_unrepaired p_nested_next_line) = map bs ["macro"; "r2"; "r3"]%string /\
+  map snd (report_vcl p_nested_next_line) = map bs ["macro"; "r3"]%string.
+Proof. exact unrepaired_nested_next_line. Qed.
+
+Theorem C12_unrepaired_range_leak :
+  map snd (report_vcl_unrepaired p_range_leak) = map bs ["macro"]%string /\
+  map snd (report_vcl p_range_leak) = map bs ["macro"; "r2"; "macro"; "r3"]%string.
+Proof. exact unrepaired_range_leak. Qed.
+
+Theorem C12_unrepaired_switch_case :
+  map snd (report_vcl_unrepaired p_switch_case) = map bs ["macro"; "r1"; "r2"; "r3"]%string /\
+  map snd (report_vcl p_switch_case) = map bs ["macro"; "r3"]%string.
+Proof. exact unrepaired_switch_case. Qed.
+
+Theorem C12_unrepaired_else :
+  map snd (report_vcl_unrepaired p_else) = map bs ["macro"; "r0"; "c2"; "r1"; "r2"]%string /\
+  map snd (report_vcl p_else) = map bs ["macro"; "r0"]%string.
+Proof. exact unrepaired_else. Qed.
+
+Theorem C12_unrepaired_block_comment :
+  map snd (report_vcl_unrepaired p_block_comment) = map bs ["macro"; "r1"; "r2"]%string /\
+  map snd (report_vcl p_block_comment) = map bs ["macro"]%string.
+Proof. exact unrepaired_block_comment. Qed.
+
+Theorem C12_unrepaired_unused_variable :
+  map snd (report_vcl_unrepaired p_unused_variable) = map bs ["macro"; "r1"; "unused/variable"]%string /\
+  map snd (report_vcl p_unused_variable) = map bs ["macro"; "r1"]%string.
+Proof. exact unrepaired_unused_variable. Qed.
 
 Print Assumptions C12_ignore_restores.
 Print Assumptions C12_ignore_exact_next_line.
@@ -165,3 +161,9 @@ Print Assumptions C12_range_exact_top.
 Print Assumptions C12_range_exact_in_context.
 Print Assumptions C12_parse_render.
 Print Assumptions C12_range_overlap_refuted.
+Print Assumptions C12_unrepaired_nested_next_line.
+Print Assumptions C12_unrepaired_range_leak.
+Print Assumptions C12_unrepaired_switch_case.
+Print Assumptions C12_unrepaired_else.
+Print Assumptions C12_unrepaired_block_comment.
+Print Assumptions C12_unrepaired_unused_variable.
